@@ -79,6 +79,48 @@ pub fn cp_verify<C: NatCtx>(v: &mut Env<C>, g1: &Option<BigUint>, g2: &BigUint, 
     got
 }
 
+/// DOMAIN SEPARATION between proof kinds: a generic proof whose label was crafted to contain the encoding of
+/// a ciphertext component must not be accepted as a ciphertext-bound proof (and vice versa); "mhr absent,
+/// label = enc(mhr) || L" and "mhr present, label = L" are different statements.  Default base.
+pub fn cross_protocol<C: NatCtx>(v: &mut Env<C>, x: &BigUint, label: &[u8], strict: bool) {
+    let (p, g) = (v.p.clone(), v.g.clone());
+    let ctx = v.ctx.clone();
+    let zkp = Zkp::new(&ctx);
+    let tok = v.tok.clone();
+    let y = g.modpow(x, &p);
+    let x = x.clone();
+    let label = label.to_vec();
+        // (0) DOMAIN SEPARATION between proof kinds: a generic proof whose label was crafted to contain the
+        // encoding of a ciphertext component must not be accepted as a ciphertext-bound proof (and vice versa);
+        // "mhr absent, label = enc(mhr) || L" and "mhr present, label = L" are different statements
+        {
+            use strand::serialization::StrandSerialize;
+            let mhr = v.rnd_member();
+            let mhr_bytes = v.e(&mhr).strand_serialize().unwrap();
+            let crafted: Vec<Vec<u8>> = vec![[mhr_bytes.clone(), label.clone()].concat(), [label.clone(), mhr_bytes.clone()].concat(), [b"mhr".to_vec(), mhr_bytes.clone(), b"label".to_vec(), label.clone()].concat()];
+            strand::verif_hooks::load_exp_tape(vec![]);
+            for lab2 in &crafted {
+                let (xe, ye, me) = (v.x(&x), v.e(&y), v.e(&mhr));
+                let generic = zkp.schnorr_prove(&xe, &ye, None, lab2).unwrap();
+                let acc = zkp.encryption_popk_verify(&me, &ye, &generic, &label).unwrap_or(false);
+                v.h.check(!(acc && strict), || format!("a generic Schnorr proof with the crafted label {:02x?}.. is accepted as a plaintext-knowledge proof for mhr={:x} with label {:02x?} on {}", &lab2[..lab2.len().min(12)], mhr, &label[..label.len().min(12)], tok));
+                let bound = zkp.encryption_popk(&xe, &me, &ye, &label).unwrap();
+                let acc = zkp.schnorr_verify(&ye, None, &bound, lab2);
+                v.h.check(!(acc && strict), || format!("a plaintext-knowledge proof for mhr={:x} is accepted as a generic Schnorr proof with a crafted label on {}", mhr, tok));
+                // Chaum-Pedersen / decryption proofs
+                let gr = v.rnd_member();
+                let f = gr.modpow(&x, &p);
+                let (gre, fe) = (v.e(&gr), v.e(&f));
+                let generic = zkp.cp_prove(&xe, &ye, &fe, None, &gre, lab2).unwrap();
+                let acc = zkp.verify_decryption(&ye, &fe, &me, &gre, &generic, &label).unwrap_or(false);
+                v.h.check(!(acc && strict), || format!("a generic Chaum-Pedersen proof with a crafted label is accepted as a decryption proof for mhr={:x} on {}", mhr, tok));
+                let bound = zkp.decryption_proof(&xe, &ye, &fe, &me, &gre, &label).unwrap();
+                let acc = zkp.cp_verify(&ye, &fe, None, &gre, &bound, lab2);
+                v.h.check(!(acc && strict), || format!("a decryption proof for mhr={:x} is accepted as a generic Chaum-Pedersen proof with a crafted label on {}", mhr, tok));
+            }
+        }
+}
+
 pub fn run_c06<C: NatCtx>(v: &mut Env<C>) {
     let (p, q, g) = (v.p.clone(), v.q.clone(), v.g.clone());
     let quick = v.h.tier == Tier::Quick;
@@ -142,6 +184,9 @@ pub fn run_c06<C: NatCtx>(v: &mut Env<C>) {
         let bv = base.clone().unwrap_or_else(|| g.clone());
         let y = bv.modpow(&x, &p);
         let tok = v.tok.clone();
+        if base.is_none() {
+            cross_protocol(v, &x, &label, strict);
+        }
         // (i) simulated transcript with a freely chosen challenge: equation holds, hash does not
         let (c, s) = (v.rnd_exp(), v.rnd_exp());
         let yinv_c = y.modpow(&((&q - &c) % &q), &p);
